@@ -22,11 +22,14 @@ props! {
     c02 => "C02",
     c03 => "C03",
     c04 => "C04",
+    c05 => "C05",
     c06 => "C06",
     c07 => "C07",
     c08 => "C08",
     c31 => "C31",
 }
+
+pub mod c05syn;
 
 /// Internal sub-commands (`check __xyz ...`), e.g. child-process workloads for the crash engine.
 pub fn internal(cmd: &str, args: &[String]) -> i32 {
